@@ -166,6 +166,11 @@ def examine(ctx, recipe, items) -> None:
         except LookupError:
             pc, out = None, 'NoCollection'
         items.append((line, out, {**desc, 'op': line, 'call': label}))
+        # the property's last clause, stated directly: a variable with leftover non-spatial dimensions is refused
+        if model_vals == 'extra' and pc is not None:
+            ctx.oracle_fail('leftover-dimensions-not-refused', {**desc, 'call': label, 'var': str(data)},
+                            f'{label}: make_poly_collection accepted {data!r}, which has a leftover non-spatial dimension, '
+                            f'and built a collection of {len(pc.get_paths())} patches')
         if hole_before or kw or maker is not None:
             ctx.nontrivial((str(recipe), label))
         ctx.count(f'collection:{label}')
@@ -186,7 +191,8 @@ def examine(ctx, recipe, items) -> None:
     # no data: outlines only
     run_collection('no-data', None, 'none')
     run_collection('no-data-styled', None, 'none', **style)
-    for name in face_vars[:2]:
+    # two plain variables and, always, the one with a leftover dimension
+    for name in face_vars[:2] + [n for n in face_vars[2:] if any(d not in gd for d in ds[n].dims)][:1]:
         da = ds[name]
         extra = [d for d in da.dims if d not in gd]
         if extra:
@@ -226,6 +232,20 @@ def examine(ctx, recipe, items) -> None:
             if pc is not None:
                 oracle(pc, label, name, flat, clim_given, excused)
     # ---- quiver ---------------------------------------------------------------------------------------
+    # components with a leftover non-spatial dimension are refused, whatever that dimension's length
+    leftover = [n for n in face_vars if len(built.vars[n].dims) > len(gd)]
+    if leftover:
+        fig0 = Figure()
+        ax0 = fig0.add_subplot()
+        w = ds[leftover[0]]
+        try:
+            q0 = c.make_quiver(ax0, w, w, transform=ax0.transData)
+        except Exception:
+            q0 = None
+            ctx.count('quiver:leftover-refused')
+        if q0 is not None:
+            ctx.oracle_fail('quiver-leftover-dimensions-not-refused', {**desc, 'var': leftover[0]},
+                            f'make_quiver accepted components with dimensions {tuple(w.dims)} and drew {len(np.ravel(q0.U))} arrows')
     if len(face_vars) >= 1:
         plain = [n for n in face_vars if len(built.vars[n].dims) == len(gd)]
         if plain:
@@ -360,7 +380,10 @@ def make_recipe(ctx, k):
     G.finalize_var_orders(rng, vars_, probe.grids, permute=True, with_nan=True)
     recipe = dict(recipe)
     recipe['vars'] = vars_
-    recipe['sizes_extra'] = {'time': 2}
+    # the leftover dimension usually has two steps; every third dataset it is exactly as long as the grid has cells
+    # (a coincidence in which indexing the leftover axis with the cell mask happens to "work")
+    ncells = len(probe.polys)
+    recipe['sizes_extra'] = {'time': ncells if (k % 3 == 1 and 2 <= ncells <= 40) else 2}
     recipe['c19'] = {'style': dict(rng.choice(STYLES)), 'values': {v['name']: random_value_map(rng) for v in vars_}}
     return recipe
 
